@@ -1173,6 +1173,9 @@ func (x *Exec) convert(v *Value, to types.Type, st *State, n ast.Node) *Value {
 		}
 		return &Value{T: to, Tm: v.term()}
 	}
+	if _, isSlice := to.Underlying().(*types.Slice); isSlice && v.Tm != nil && v.Tm.S == IntS && v.Tm.IsLit() {
+		return &Value{T: to, Tm: MkSlice(IntLit(0), IntLit(0), IntLit(0))}
+	}
 	toII, toInt := intTypeInfo(to)
 	fromII, fromInt := intInfo{}, false
 	if from != nil {
